@@ -119,3 +119,13 @@ def run(cx):
     check_hash(cx, 'gm_sm9::key::sm9_u256_hash2', 'H2', s.consts['SM9_HASH2_PREFIX'], ['$data', '$wbuf'])
     check_hash(cx, 'gm_sm9::key::sm9_u256_hash1', 'H1', s.consts['SM9_HASH1_PREFIX'], ['$id', 'array{$hid}'])
     check_from_hash(cx)
+
+
+_run_pow2 = run
+
+
+def run(cx):
+    from .. import rules_s as S
+    _run_pow2(cx)
+    # g^r / g^h: the GT exponentiation is a complete square-and-multiply over the four limbs of the exponent
+    S.square_multiply(cx, 'I-POW', '<impl fields::fp12::Fp12>::pow')
